@@ -83,7 +83,38 @@ def replay_group(ns, ob, model):
     return got != expected, detail
 
 
+def replay_rshift_features(ns, ob, model):
+    """feature-level clauses of __rshift__: the counter-model fixes the length, the rotation and one generic part;
+    the other parts of the location are not determined by it, so the replay searches the neighbourhood: every
+    1- and 2-part location over short parts at that length and rotation, compared through denoted nucleotides"""
+    from Bio.Seq import Seq
+    import itertools
+    from bounded import common as bc
+    CircularRecord = ns["moclo.record"].CircularRecord
+    n = max(2, min(len(model.get("seq", "AC")), 7))
+    k = model.get("index", 1)
+    letters = "ACGTRYKM"[:n]
+    shorts = [(a, b) for a in range(n) for b in range(a + 1, min(n, a + 3) + 1)]
+    tables = [[("misc_feature", [(a, b, 1)], {"label": ["x"]})] for (a, b) in shorts]
+    for (p, q) in itertools.product(shorts, repeat=2):
+        tables.append([("misc_feature", [(p[0], p[1], 1), (q[0], q[1], 1)], {"label": ["x"]})])
+    for ks in sorted({k % n, (k % n) or 1, 1, n - 1}):
+        for feats in tables:
+            rec = CircularRecord(Seq(letters), id="r", features=bc.build_features(feats))
+            try:
+                out = rec >> ks
+            except Exception as e:
+                return True, dict(call="CircularRecord(%r, features=%r) >> %d" % (letters, feats, ks), observed="raised %r" % (e,))
+            pb = bc.compare_rotation(bc.observe(rec), bc.observe(out), ks % n, n, "r>>k")
+            if pb:
+                return True, dict(call="CircularRecord(%r, features=%r) >> %d" % (letters, feats, ks), problems=pb[:3],
+                                  note="found in the neighbourhood of the counter-model (same length/rotation)", model=model)
+    return False, dict(note="no failing input among 1- and 2-part locations at n=%d" % n, model=model)
+
+
 def replay_rshift(ns, ob, model):
+    if str(ob.meta.get("clause", "")).startswith("feature["):
+        return replay_rshift_features(ns, ob, model)
     from Bio.Seq import Seq
     seq = _dnaify(model["seq"]) if len(set(model["seq"])) > 1 else "".join(DNA[i % 4] for i in range(len(model["seq"])))
     n = len(seq)
